@@ -423,3 +423,16 @@ func eq(a, b string) string     { return "(= " + a + " " + b + ")" }
 func ite(c, a, b string) string { return "(ite " + c + " " + a + " " + b + ")" }
 func sel(a, i string) string    { return "(select " + a + " " + i + ")" }
 func sto(a, i, v string) string { return "(store " + a + " " + i + " " + v + ")" }
+
+// litText: the text of a string-literal constant, if name is one.
+func (r *SortReg) litText(name string) (string, bool) {
+	if !strings.HasPrefix(name, "lit") {
+		return "", false
+	}
+	for t, n := range r.strLits {
+		if n == name {
+			return t, true
+		}
+	}
+	return "", false
+}
